@@ -106,7 +106,34 @@ def props_file(prop):
     return os.path.join(COQ, 'theories', 'Props', prop + '.v')
 
 
-def proof_gate(prop):
+def coqchk_gate(prop, res):
+    """thorough tier: independent re-check of the compiled property file and everything it depends on (coqchk -o);
+    the axiom summary must be empty (allow-list: standard-library axioms)."""
+    with Lock('coq'):
+        rc, out, _t = sh(['coqchk', '-o', '-silent', '-Q', 'theories', 'PieV', 'PieV.Props.%s' % prop], cwd=COQ, timeout=3000)
+    txt = out
+    res['coqchk'] = 'rc=%d' % rc
+    if rc != 0:
+        res['ok'] = False
+        res['problems'].append('coqchk failed on Props.%s:\n%s' % (prop, txt[-1500:]))
+        return
+    m = re.search(r'\* Axioms:(.*?)\n\s*\n\* Constants', txt, re.S)
+    body = m.group(1).strip() if m else '?'
+    res['coqchk'] = 'Axioms: ' + ' '.join(body.split())
+    if body != '<none>':
+        names = re.findall(r'([A-Za-z0-9_.\']+)\s*$', body, re.M)
+        for a in names:
+            if a not in ALLOWED_AXIOMS and a.split('.')[-1] not in ALLOWED_AXIOMS:
+                res['ok'] = False
+                res['problems'].append('coqchk reports non-allow-listed axiom ' + a)
+    for key in ('type-in-type', 'unsafe (co)fixpoints', 'positivity is assumed'):
+        mm = re.search(re.escape(key) + r':(.*?)\n', txt)
+        if mm and mm.group(1).strip() != '<none>':
+            res['ok'] = False
+            res['problems'].append('coqchk: %s: %s' % (key, mm.group(1).strip()))
+
+
+def proof_gate(prop, tier='quick'):
     """Builds the development, scans for forbidden constructs, re-checks Props/<prop>.v and parses Print Assumptions.
     Returns dict(ok, theorems, axioms, problems, log)."""
     res = {'ok': True, 'theorems': [], 'axioms': [], 'problems': [], 'checker_cmd': ''}
@@ -165,6 +192,8 @@ def proof_gate(prop):
         res['ok'] = False
         res['problems'].append('could not parse Print Assumptions output')
     res['closed_blocks'] = closed
+    if tier != 'quick' and res['ok']:
+        coqchk_gate(prop, res)
     return res
 
 # ----------------------------------------------------------------------------- extraction driver
